@@ -399,6 +399,7 @@ type Exec struct {
 
 	sched *scheduler
 	preemptAtGo bool
+	preemptAtLocks bool
 	races     []RaceReport
 	harnessFn map[*ssa.Function]bool
 	spawnVC   vclock
